@@ -402,13 +402,18 @@ func scripts(cs []coin) [][]byte {
 
 func main() {
 	r := evid.New(P, "exploration")
-	r.Rule("generated authoring requests: output counts {0,1,2,3,5,10,40,250..255 each,300,600} of P2PKH/P2WPKH/P2SH/P2WSH/P2TR/OP_RETURN scripts, rates 1000..500000 sat/kvB, coin multisets of 1..260 inputs mixing P2PKH/P2WPKH/nested-P2WPKH/P2TR (or one kind), every change script type, three input-source behaviours (all at once / incremental in order / incremental largest-first), amounts placed deliberately at target+fee-1/+0/+1, at the change dust threshold +-1, on a PREFIX of the coins (forces several selection rounds), and at 'enough for the first fee guess only'. Each result of the real NewUnsignedTransaction is signed for real (AddAllInputScripts with a harness key ring), its real virtual size measured, every input executed in the script engine, and judged: outputs unchanged, inputs = outputs + fee, fee >= rate x real vsize, fee <= rate x worst-case estimate + dust threshold, no zero/dust change, insufficient-funds only if all offered coins cannot cover outputs + worst-case fee. Non-trivial = successfully authored, signed and measured; distinct = distinct request descriptions.")
+	r.Rule("generated authoring requests: output counts {0,1,2,3,5,10,40,250..255 each,300,600} of P2PKH/P2WPKH/P2SH/P2WSH/P2TR/OP_RETURN scripts, rates 1000..500000 sat/kvB, coin multisets of 1..260 inputs mixing P2PKH/P2WPKH/nested-P2WPKH/P2TR (or one kind), every change script type, three input-source behaviours (all at once / incremental in order / incremental largest-first), amounts placed deliberately at target+fee-1/+0/+1, at the change dust threshold +-1, on a PREFIX of the coins (forces several selection rounds), and at 'enough for the first fee guess only'. Each result of the real NewUnsignedTransaction is signed for real (AddAllInputScripts with a harness key ring), its real virtual size measured, every input executed in the script engine, and judged: outputs unchanged, inputs = outputs + fee, fee >= rate x real vsize, fee <= rate x worst-case estimate + dust threshold, no zero/dust change, insufficient-funds only if all offered coins cannot cover outputs + worst-case fee. A wallet-level phase drives the same inequalities through the wallet's own input source: funded wallets author (CreateSimpleTx, not published) 40 requests each with amounts placed on the k largest eligible coins minus 110..1100 vB worth of fee, so that a second selection round is needed; inputs must be distinct ledger coins, TotalInput their real worth, requested outputs present unchanged, change not dust, fee within the band against the real signed size. Non-trivial = successfully authored, signed and measured; distinct = distinct request descriptions.")
 	r.Trusted("btcd mempool.GetTxVirtualSize, txscript.Engine with StandardVerifyFlags", "txrules.IsDustOutput / FeeForSerializeSize as the statement's own arithmetic")
 	r.Assume("uncompressed-key P2PKH inputs are excluded (documented as unreliable; an HD wallet never produces them)", "input sources honour the InputSource contract (return at least the target when they can)")
 	n := r.N(2500, 200000)
 	r.Parallel("author", n, evid.Workers(), func(i int, cs int64) {
 		one(r, rand.New(rand.NewSource(cs)), i, cs)
 	})
+	dir, _ := os.MkdirTemp("", "c07")
+	defer os.RemoveAll(dir)
+	r.Parallel("wallet", r.N(12, 300), evid.Workers(), func(i int, cs int64) { walletAuthoring(r, dir, cs) })
+	r.Require("wallet-authored-and-measured", 100)
+	r.Require("wallet-multi-round-selections", 10)
 	r.Require("signed-and-measured", 800)
 	r.Require("multi-round-selections", 100)
 	r.Require("compact-size-boundary-cases", 50)
